@@ -190,3 +190,651 @@ pub fn try_extend_model<T: Copy, const CAP: usize>(
     }
     Ok(())
 }
+
+// --------------------------------------------------------------------------
+// Independent DNS message decoder (RFC 1035 section 4) for small messages
+// --------------------------------------------------------------------------
+
+/// Largest message the reference decoder handles.
+pub const LIM: usize = 160;
+pub const MAXREC: usize = 8;
+
+pub const T_A: u16 = 1;
+pub const T_NS: u16 = 2;
+pub const T_MD: u16 = 3;
+pub const T_MF: u16 = 4;
+pub const T_CNAME: u16 = 5;
+pub const T_SOA: u16 = 6;
+pub const T_MB: u16 = 7;
+pub const T_MG: u16 = 8;
+pub const T_MR: u16 = 9;
+pub const T_PTR: u16 = 12;
+pub const T_MINFO: u16 = 14;
+pub const T_MX: u16 = 15;
+pub const T_TXT: u16 = 16;
+pub const T_AAAA: u16 = 28;
+pub const T_SRV: u16 = 33;
+pub const T_OPT: u16 = 41;
+pub const T_TSIG: u16 = 250;
+
+#[derive(Clone, Copy)]
+pub struct RefRec {
+    /// 1 = answer, 2 = authority, 3 = additional
+    pub section: u8,
+    pub owner_at: usize,
+    pub rtype: u16,
+    pub class: u16,
+    pub ttl: u32,
+    pub rd_at: usize,
+    pub rdlen: usize,
+}
+
+#[derive(Clone, Copy)]
+pub struct RefMsg {
+    /// the message decodes completely and ends exactly at `n`
+    pub wellformed: bool,
+    /// where decoding stopped when not well formed (0 = fine)
+    pub why: u8,
+    pub id: u16,
+    pub flags: u16,
+    pub counts: [u16; 4],
+    pub q_at: usize,
+    pub q_end: usize,
+    pub qtype: u16,
+    pub qclass: u16,
+    pub recs: [RefRec; MAXREC],
+    pub n_recs: usize,
+    pub n_opt: usize,
+    pub n_tsig: usize,
+    /// OPT only in the additional section
+    pub opt_placement_ok: bool,
+    /// TSIG, if any, is the very last record (and in the additional section)
+    pub tsig_placement_ok: bool,
+    /// every compression pointer points strictly backwards to a label start
+    pub pointers_ok: bool,
+    /// number of compression pointers seen (in owner names, QNAME, RDATA names)
+    pub n_pointers: usize,
+    /// a pointer was found inside RDATA of a type that must not be compressed
+    pub forbidden_pointer: bool,
+    pub end: usize,
+}
+
+pub struct NameWalk {
+    /// octets occupied at the start position
+    pub first_chunk: usize,
+    /// uncompressed length
+    pub total: usize,
+    pub pointers: usize,
+}
+
+/// Walks one (possibly compressed) name inside a message, registering the
+/// label starts of its first chunk in `starts`.  Pointers must point strictly
+/// backwards to a registered label start.
+pub fn ref_msg_name(msg: &[u8], n: usize, at: usize, starts: &mut [bool; LIM]) -> Option<NameWalk> {
+    ref_msg_name_lim(msg, n, at, starts, usize::MAX)
+}
+
+/// Same, giving up (None) after `max_steps` labels/pointers.  A concrete
+/// `max_steps` lets CBMC stop unwinding the walk without a solver call; a
+/// name that needs more steps makes the caller's well-formedness assertion
+/// fail, so the bound can never hide anything.
+pub fn ref_msg_name_lim(
+    msg: &[u8],
+    n: usize,
+    at: usize,
+    starts: &mut [bool; LIM],
+    max_steps: usize,
+) -> Option<NameWalk> {
+    let mut steps = 0usize;
+    let mut pos = at;
+    let mut total = 0usize;
+    let mut first_chunk = 0usize;
+    let mut in_first = true;
+    let mut pointers = 0usize;
+    loop {
+        if steps >= max_steps {
+            return None;
+        }
+        steps += 1;
+        if pos >= n {
+            return None;
+        }
+        let b = msg[pos];
+        if b >= 0xc0 {
+            if pos + 1 >= n {
+                return None;
+            }
+            let target = (((b & 0x3f) as usize) << 8) | msg[pos + 1] as usize;
+            if target >= pos || target >= LIM || !starts[target] {
+                return None;
+            }
+            if in_first {
+                first_chunk = pos + 2 - at;
+                in_first = false;
+            }
+            pointers += 1;
+            pos = target;
+        } else if b > 63 {
+            return None;
+        } else {
+            let l = b as usize;
+            if pos + 1 + l > n {
+                return None;
+            }
+            if in_first && pos < LIM {
+                starts[pos] = true;
+            }
+            total += 1 + l;
+            if total > 255 {
+                return None;
+            }
+            pos += 1 + l;
+            if l == 0 {
+                if in_first {
+                    first_chunk = pos - at;
+                }
+                return Some(NameWalk {
+                    first_chunk,
+                    total,
+                    pointers,
+                });
+            }
+        }
+    }
+}
+
+pub fn be16(msg: &[u8], at: usize) -> u16 {
+    ((msg[at] as u16) << 8) | msg[at + 1] as u16
+}
+
+pub fn be32(msg: &[u8], at: usize) -> u32 {
+    ((msg[at] as u32) << 24) | ((msg[at + 1] as u32) << 16) | ((msg[at + 2] as u32) << 8) | msg[at + 3] as u32
+}
+
+/// Is `rtype` one whose RDATA names may be compressed (RFC 3597 section 4:
+/// only the types defined in RFC 1035)?
+pub fn compressible_type(rtype: u16) -> bool {
+    matches!(
+        rtype,
+        T_NS | T_MD | T_MF | T_CNAME | T_SOA | T_MB | T_MG | T_MR | T_PTR | T_MINFO | T_MX
+    )
+}
+
+/// Decodes `msg[..n]`.  `n` must be <= LIM.
+pub fn ref_decode(msg: &[u8], n: usize) -> RefMsg {
+    ref_decode_lim(msg, n, [usize::MAX; 4], usize::MAX)
+}
+
+/// Same with concrete caps on questions, records per section and name-walk steps: a
+/// message beyond a cap is reported as NOT well formed (why = 20..22), never
+/// silently truncated.
+pub fn ref_decode_lim(msg: &[u8], n: usize, caps: [usize; 4], max_steps: usize) -> RefMsg {
+    let zero = RefRec {
+        section: 0,
+        owner_at: 0,
+        rtype: 0,
+        class: 0,
+        ttl: 0,
+        rd_at: 0,
+        rdlen: 0,
+    };
+    let mut m = RefMsg {
+        wellformed: false,
+        why: 0,
+        id: 0,
+        flags: 0,
+        counts: [0; 4],
+        q_at: 12,
+        q_end: 12,
+        qtype: 0,
+        qclass: 0,
+        recs: [zero; MAXREC],
+        n_recs: 0,
+        n_opt: 0,
+        n_tsig: 0,
+        opt_placement_ok: true,
+        tsig_placement_ok: true,
+        pointers_ok: true,
+        n_pointers: 0,
+        forbidden_pointer: false,
+        end: 0,
+    };
+    if n < 12 || n > LIM || n > msg.len() {
+        m.why = 1;
+        return m;
+    }
+    m.id = be16(msg, 0);
+    m.flags = be16(msg, 2);
+    m.counts = [be16(msg, 4), be16(msg, 6), be16(msg, 8), be16(msg, 10)];
+    let mut starts = [false; LIM];
+    let mut pos = 12usize;
+    // questions
+    let mut qi = 0u16;
+    while qi < m.counts[0] {
+        if qi as usize >= caps[0] {
+            m.why = 20;
+            return m;
+        }
+        let w = match ref_msg_name_lim(msg, n, pos, &mut starts, max_steps) {
+            Some(w) => w,
+            None => {
+                m.why = 2;
+                m.pointers_ok = false;
+                return m;
+            }
+        };
+        m.n_pointers += w.pointers;
+        if pos + w.first_chunk + 4 > n {
+            m.why = 3;
+            return m;
+        }
+        if qi == 0 {
+            m.q_at = pos;
+            m.qtype = be16(msg, pos + w.first_chunk);
+            m.qclass = be16(msg, pos + w.first_chunk + 2);
+            m.q_end = pos + w.first_chunk + 4;
+        }
+        pos += w.first_chunk + 4;
+        qi += 1;
+    }
+    // records
+    let mut section = 1u8;
+    while section <= 3 {
+        let mut k = 0u16;
+        while k < m.counts[section as usize] {
+            if k as usize >= caps[section as usize] {
+                m.why = 21;
+                return m;
+            }
+            let w = match ref_msg_name_lim(msg, n, pos, &mut starts, max_steps) {
+                Some(w) => w,
+                None => {
+                    m.why = 4;
+                    m.pointers_ok = false;
+                    return m;
+                }
+            };
+            m.n_pointers += w.pointers;
+            let fixed = pos + w.first_chunk;
+            if fixed + 10 > n {
+                m.why = 5;
+                return m;
+            }
+            let rtype = be16(msg, fixed);
+            let class = be16(msg, fixed + 2);
+            let ttl = be32(msg, fixed + 4);
+            let rdlen = be16(msg, fixed + 8) as usize;
+            let rd_at = fixed + 10;
+            if rd_at + rdlen > n {
+                m.why = 6;
+                return m;
+            }
+            // names inside RDATA
+            let rd_end = rd_at + rdlen;
+            let mut name_at = [usize::MAX; 2];
+            let mut tail = 0usize; // octets required after the last name
+            match rtype {
+                T_NS | T_MD | T_MF | T_CNAME | T_MB | T_MG | T_MR | T_PTR => name_at[0] = rd_at,
+                T_MX => {
+                    if rdlen < 2 {
+                        m.why = 7;
+                        return m;
+                    }
+                    name_at[0] = rd_at + 2
+                }
+                T_SRV if class == 1 => {
+                    if rdlen < 6 {
+                        m.why = 7;
+                        return m;
+                    }
+                    name_at[0] = rd_at + 6
+                }
+                T_A if class == 3 => {
+                    // Chaosnet A: name + 16-bit address
+                    name_at[0] = rd_at;
+                    tail = 2;
+                }
+                T_SOA => {
+                    name_at[0] = rd_at;
+                    name_at[1] = 0; // second name follows the first
+                    tail = 20;
+                }
+                T_MINFO => {
+                    name_at[0] = rd_at;
+                    name_at[1] = 0;
+                }
+                _ => {}
+            }
+            if name_at[0] != usize::MAX {
+                let w1 = match ref_msg_name_lim(msg, rd_end, name_at[0], &mut starts, max_steps) {
+                    Some(w) => w,
+                    None => {
+                        m.why = 8;
+                        m.pointers_ok = false;
+                        return m;
+                    }
+                };
+                m.n_pointers += w1.pointers;
+                let mut after = name_at[0] + w1.first_chunk;
+                let mut ptrs = w1.pointers;
+                if name_at[1] != usize::MAX {
+                    let w2 = match ref_msg_name_lim(msg, rd_end, after, &mut starts, max_steps) {
+                        Some(w) => w,
+                        None => {
+                            m.why = 9;
+                            m.pointers_ok = false;
+                            return m;
+                        }
+                    };
+                    m.n_pointers += w2.pointers;
+                    ptrs += w2.pointers;
+                    after += w2.first_chunk;
+                }
+                if after + tail != rd_end {
+                    m.why = 10;
+                    return m;
+                }
+                if ptrs > 0 && !(compressible_type(rtype) && !(rtype == T_A)) {
+                    m.forbidden_pointer = true;
+                }
+            }
+            if rtype == T_OPT {
+                m.n_opt += 1;
+                if section != 3 {
+                    m.opt_placement_ok = false;
+                }
+            }
+            if rtype == T_TSIG {
+                m.n_tsig += 1;
+                if !(section == 3 && k + 1 == m.counts[3]) {
+                    m.tsig_placement_ok = false;
+                }
+            }
+            if m.n_recs < MAXREC {
+                m.recs[m.n_recs] = RefRec {
+                    section,
+                    owner_at: pos,
+                    rtype,
+                    class,
+                    ttl,
+                    rd_at,
+                    rdlen,
+                };
+            }
+            m.n_recs += 1;
+            pos = rd_end;
+            k += 1;
+        }
+        section += 1;
+    }
+    m.end = pos;
+    if pos != n {
+        m.why = 11;
+        return m;
+    }
+    if m.n_tsig > 1 {
+        m.tsig_placement_ok = false;
+    }
+    m.wellformed = true;
+    m
+}
+
+// --------------------------------------------------------------------------
+// Independent request classifier (what RFC 1035 / 6891 / 8945 and the
+// property statements C03, C07, C08, C09 say about a request)
+// --------------------------------------------------------------------------
+
+#[derive(Clone, Copy, PartialEq, Eq)]
+pub enum Problem {
+    None,
+    QuestionUnparseable,
+    RecordNotDelimitable,
+    OptOutsideAdditional,
+    TsigOutsideAdditional,
+    SecondOpt,
+    OptUnparseable,
+    OptOwnerNotRoot,
+    TsigNotLast,
+    TsigBadClassOrTtl,
+    TsigMalformed,
+    TrailingOctets,
+    QueryWithoutQuestion,
+}
+
+#[derive(Clone, Copy)]
+pub struct RefScan {
+    /// false: shorter than a header, QR set, or QDCOUNT > 1 -> no response at all
+    pub respond: bool,
+    pub id: u16,
+    pub opcode: u8,
+    pub rd: bool,
+    pub qd: u16,
+    pub q_at: usize,
+    pub q_end: usize,
+    pub qtype: u16,
+    pub qclass: u16,
+    /// the QNAME contains no compression pointer
+    pub q_plain: bool,
+    /// first FORMERR-class problem in message order
+    pub problem: Problem,
+    /// an OPT record in the additional section was reached by in-order
+    /// processing (possibly being itself the site of the problem)
+    pub opt_reached: bool,
+    pub opt_class: u16,
+    pub opt_ttl: u32,
+    /// a reached, well-formed OPT with root owner carried version != 0, and
+    /// no FORMERR-class problem precedes it
+    pub badvers_first: bool,
+    /// a syntactically acceptable TSIG (last record, class ANY, TTL 0, RDATA
+    /// layout valid) was reached before any problem: TSIG processing decides
+    pub tsig_reached: bool,
+}
+
+/// OPT RDATA: a sequence of (code, length, data) options filling it exactly.
+pub fn ref_opt_rdata_ok(msg: &[u8], at: usize, len: usize) -> bool {
+    let end = at + len;
+    let mut pos = at;
+    loop {
+        if pos == end {
+            return true;
+        }
+        if pos + 4 > end {
+            return false;
+        }
+        let l = be16(msg, pos + 2) as usize;
+        if pos + 4 + l > end {
+            return false;
+        }
+        pos += 4 + l;
+    }
+}
+
+/// TSIG RDATA layout (RFC 8945 section 4.2): algorithm name, 48-bit time,
+/// fudge, MAC size + MAC, original ID, error, other len + other data.
+pub fn ref_tsig_rdata_ok(msg: &[u8], at: usize, len: usize) -> bool {
+    let end = at + len;
+    let alg = match ref_uncompressed(&msg[at..end]) {
+        Ok(l) => l,
+        Err(_) => return false,
+    };
+    let mut pos = at + alg;
+    if pos + 10 > end {
+        return false;
+    }
+    let mac = be16(msg, pos + 8) as usize;
+    pos += 10 + mac;
+    if pos + 6 > end {
+        return false;
+    }
+    let other = be16(msg, pos + 4) as usize;
+    pos += 6 + other;
+    pos == end
+}
+
+pub fn ref_scan(req: &[u8], n: usize) -> RefScan {
+    let mut s = RefScan {
+        respond: false,
+        id: 0,
+        opcode: 0,
+        rd: false,
+        qd: 0,
+        q_at: 12,
+        q_end: 12,
+        qtype: 0,
+        qclass: 0,
+        q_plain: true,
+        problem: Problem::None,
+        opt_reached: false,
+        opt_class: 0,
+        opt_ttl: 0,
+        badvers_first: false,
+        tsig_reached: false,
+    };
+    if n < 12 {
+        return s;
+    }
+    s.id = be16(req, 0);
+    if req[2] & 0x80 != 0 {
+        return s;
+    }
+    s.opcode = (req[2] >> 3) & 0xf;
+    s.rd = req[2] & 1 != 0;
+    s.qd = be16(req, 4);
+    if s.qd > 1 {
+        return s;
+    }
+    s.respond = true;
+    let an = be16(req, 6) as usize;
+    let ns = be16(req, 8) as usize;
+    let ar = be16(req, 10) as usize;
+    let mut pos = 12usize;
+    if s.qd == 1 {
+        match ref_name(&req[..n], pos) {
+            Ok(nm) => {
+                if pos + nm.first_chunk + 4 > n {
+                    s.problem = Problem::QuestionUnparseable;
+                    return s;
+                }
+                s.q_plain = !nm.used_pointer;
+                s.qtype = be16(req, pos + nm.first_chunk);
+                s.qclass = be16(req, pos + nm.first_chunk + 2);
+                pos += nm.first_chunk + 4;
+                s.q_end = pos;
+            }
+            Err(_) => {
+                s.problem = Problem::QuestionUnparseable;
+                return s;
+            }
+        }
+    }
+    let total = an + ns + ar;
+    let mut i = 0usize;
+    let mut seen_opt = false;
+    while i < total {
+        let in_additional = i >= an + ns;
+        // delimit the record: first chunk of the owner, 10 fixed octets, RDATA
+        let first = match ref_skip(&req[pos..n]) {
+            Ok(l) => l,
+            Err(_) => {
+                if s.problem == Problem::None {
+                    s.problem = Problem::RecordNotDelimitable;
+                }
+                return s;
+            }
+        };
+        let fixed = pos + first;
+        if fixed + 10 > n {
+            if s.problem == Problem::None {
+                s.problem = Problem::RecordNotDelimitable;
+            }
+            return s;
+        }
+        let rtype = be16(req, fixed);
+        let class = be16(req, fixed + 2);
+        let ttl = be32(req, fixed + 4);
+        let rdlen = be16(req, fixed + 8) as usize;
+        let rd_at = fixed + 10;
+        if rd_at + rdlen > n {
+            if s.problem == Problem::None {
+                s.problem = Problem::RecordNotDelimitable;
+            }
+            return s;
+        }
+        if rtype == T_OPT {
+            if !in_additional {
+                if s.problem == Problem::None {
+                    s.problem = Problem::OptOutsideAdditional;
+                }
+                return s;
+            }
+            if seen_opt {
+                if s.problem == Problem::None {
+                    s.problem = Problem::SecondOpt;
+                }
+                return s;
+            }
+            seen_opt = true;
+            if s.problem == Problem::None && !s.badvers_first {
+                s.opt_reached = true;
+                s.opt_class = class;
+                s.opt_ttl = ttl;
+            }
+            let owner = ref_name(&req[..n], pos);
+            let owner_ok = owner.is_ok();
+            if !owner_ok || !ref_opt_rdata_ok(req, rd_at, rdlen) {
+                if s.problem == Problem::None {
+                    s.problem = Problem::OptUnparseable;
+                }
+                return s;
+            }
+            let root = matches!(owner, Ok(ref o) if o.len == 1);
+            if !root {
+                if s.problem == Problem::None {
+                    s.problem = Problem::OptOwnerNotRoot;
+                }
+                return s;
+            }
+            if (ttl >> 16) & 0xff != 0 && s.problem == Problem::None {
+                s.badvers_first = true;
+            }
+        } else if rtype == T_TSIG {
+            if !in_additional {
+                if s.problem == Problem::None {
+                    s.problem = Problem::TsigOutsideAdditional;
+                }
+                return s;
+            }
+            if i + 1 != total {
+                if s.problem == Problem::None {
+                    s.problem = Problem::TsigNotLast;
+                }
+                return s;
+            }
+            let owner_ok = ref_name(&req[..n], pos).is_ok();
+            if !owner_ok || !ref_tsig_rdata_ok(req, rd_at, rdlen) {
+                if s.problem == Problem::None {
+                    s.problem = Problem::TsigMalformed;
+                }
+                return s;
+            }
+            if class != 255 || ttl != 0 {
+                if s.problem == Problem::None {
+                    s.problem = Problem::TsigBadClassOrTtl;
+                }
+                return s;
+            }
+            if s.problem == Problem::None && !s.badvers_first {
+                s.tsig_reached = true;
+            }
+        }
+        pos = rd_at + rdlen;
+        i += 1;
+    }
+    if pos != n && s.problem == Problem::None {
+        s.problem = Problem::TrailingOctets;
+    }
+    if s.opcode == 0 && s.qd == 0 && s.problem == Problem::None {
+        s.problem = Problem::QueryWithoutQuestion;
+    }
+    s
+}
